@@ -107,6 +107,8 @@ pub struct Child {
     /// keep ASLR on (uncontrolled witness); default off
     pub aslr: bool,
     pub argv0: Option<String>,
+    /// run this program instead of the fml binary (the wrapper script under bash)
+    pub program: Option<String>,
 }
 
 impl Child {
@@ -120,6 +122,7 @@ impl Child {
             shim: None,
             aslr: false,
             argv0: None,
+            program: None,
         }
     }
     pub fn describe(&self) -> Value {
@@ -177,6 +180,12 @@ impl ChildResult {
     }
     pub fn budget_exceeded(&self) -> bool {
         self.trace.contains("BUDGET exceeded")
+    }
+    /// the diagnostic with digits masked (thread ids, line numbers): all non-empty lines joined
+    pub fn stderr_masked(&self, max: usize) -> String {
+        let s = String::from_utf8_lossy(&self.stderr);
+        let joined: Vec<&str> = s.lines().map(|l| l.trim()).filter(|l| !l.is_empty() && !l.starts_with("note: run with")).collect();
+        joined.join(" | ").chars().map(|c| if c.is_ascii_digit() { '#' } else { c }).take(max).collect()
     }
     pub fn stderr_first_line_masked(&self) -> String {
         let s = String::from_utf8_lossy(&self.stderr);
@@ -237,7 +246,7 @@ pub fn cleanup_scratch_root() {
 }
 
 pub fn run_child(cwd: &Path, c: &Child) -> ChildResult {
-    let bin = binary(c.profile);
+    let bin = match &c.program { Some(p) => PathBuf::from(p), None => binary(c.profile) };
     let mut cmd = Command::new(&bin);
     if let Some(a0) = &c.argv0 {
         cmd.arg0(a0);
